@@ -2574,10 +2574,19 @@ class Frame(ContainerOperand):
         memo[id(self)] = obj
         return obj #type: ignore
 
-    # def __copy__(self) -> 'Frame':
-    #     '''
-    #     Return shallow copy of this Frame.
-    #     '''
+    def __copy__(self) -> 'Frame':
+        '''
+        Return shallow copy of this Frame. The immutable arrays and index are shared; the mutable TypeBlocks and (if not static) columns are not, so that growing a FrameGO is not visible through its copy.
+        '''
+        return self.__class__(
+                self._blocks.copy(),
+                index=self._index,
+                columns=self._columns,
+                name=self._name,
+                own_data=True,
+                own_index=True,
+                own_columns=self.STATIC,
+                )
 
     # def copy(self)-> 'Frame':
     #     '''
